@@ -390,6 +390,57 @@ def name_wildcard_params(text: str, report: DropReport, item: str) -> str:
     return text
 
 
+def excise_range(text: str, start: str, last: str, replacement: str, report: DropReport, item: str) -> str:
+    """W10: the run of statements from the one that starts with the token sequence `start` through the one that
+    starts with `last` (each ends at its `;` at nesting depth 0) is replaced by `replacement` (calls of stand-ins whose
+    contracts state what the excised statements are assumed to compute)."""
+    fr = R.Frag(text)
+    ct = fr.ct
+    i0 = R.find_seq(ct, R.tokenize_pattern(start))
+    i1 = R.find_seq(ct, R.tokenize_pattern(last))
+    if len(i0) != 1 or len(i1) != 1 or i1[0] < i0[0]:
+        raise ExtractError(f"{item}: excision anchors `{start}` .. `{last}` matched {len(i0)} / {len(i1)} times")
+    k = i1[0]
+    depth = 0
+    while k < len(ct):
+        tt = ct[k].text
+        if tt in R.OPEN:
+            depth += 1
+        elif tt in R.CLOSE:
+            depth -= 1
+        elif tt == ";" and depth == 0:
+            break
+        k += 1
+    n_lines = text[ct[i0[0]].start:ct[k].end].count("\n") + 1
+    fr.replace(ct[i0[0]].start, ct[k].end, replacement)
+    report.add("W10", item, f"statements `{start} ..` through `{last} ..;` ({n_lines} lines) excised -> `{replacement}`")
+    return fr.apply()
+
+
+def for_to_while(text: str, anchor: str, itname: str, report: DropReport, item: str) -> str:
+    """W14: `for PAT in &EXPR {` -> `let mut IT = EXPR.iter(); while let Some(PAT) = IT.next() {` -- the language's own
+    desugaring of a `for` over `&Vec<T>` / `&[T]` (IntoIterator for &Vec<T> is `.iter()`).  Needed where the body uses
+    `continue`, which Verus supports in `while`/`loop` but not yet in `for`."""
+    fr = R.Frag(text)
+    ct = fr.ct
+    seq = R.tokenize_pattern(anchor)
+    idx = R.find_seq(ct, seq)
+    if len(idx) != 1:
+        raise ExtractError(f"{item}: `{anchor}` matched {len(idx)} times")
+    i = idx[0]
+    toks = ct[i:i + len(seq)]
+    if toks[0].text != "for" or ct[i + len(seq)].text != "{":
+        raise ExtractError(f"{item}: `{anchor}` is not the complete header of a `for` loop")
+    k_in = next(k for k, t in enumerate(toks) if t.text == "in")
+    if toks[k_in + 1].text != "&":
+        raise ExtractError(f"{item}: W14 applies to `for PAT in &EXPR` only")
+    pat = text[toks[1].start:toks[k_in - 1].end]
+    expr = text[toks[k_in + 2].start:toks[-1].end]
+    fr.replace(toks[0].start, toks[-1].end, f"let mut {itname} = {expr}.iter(); while let Some({pat}) = {itname}.next()")
+    report.add("W14", item, f"`{anchor}` -> `let mut {itname} = {expr}.iter(); while let Some({pat}) = {itname}.next()` (the body uses `continue`)")
+    return fr.apply()
+
+
 def w9_panic_args(text: str, report: DropReport, item: str) -> str:
     """W9: `panic!(..)`/`unreachable!(..)` are KEPT (vstd gives them `requires false`, so each must be
     proved unreachable); only their message arguments are dropped."""
@@ -770,6 +821,10 @@ class Unit:
                 text = drop_cfg_gated(text, icfg["drop_cfg_features"], self.report, itemname)
             for ex in icfg.get("excise", []):
                 text = excise_match(text, ex["scrutinee"], ex["replace"], self.report, itemname)
+            for fw in icfg.get("for_to_while", []):
+                text = for_to_while(text, fw["anchor"], fw["iter"], self.report, itemname)
+            for ex in icfg.get("excise_range", []):
+                text = excise_range(text, ex["start"], ex["last"], ex.get("replace", ""), self.report, itemname)
             for ex in icfg.get("excise_stmt", []):
                 text = excise_stmt(text, ex["anchor"], ex.get("replace", ""), self.report, itemname)
             if icfg.get("panic_to"):
@@ -1462,7 +1517,8 @@ def check_unit(name: str, variant: Optional[str] = None, rlimit: Optional[float]
             if ch.origin != "repo":
                 continue
             precise = vstd_precise_names()
-            new = sorted(x for x in (callee_vocabulary(ch.text) - locked) if x[1] not in precise)
+            # `matches!(e, pat)` is sugar for a `match`: nothing about it is left to a library contract
+            new = sorted(x for x in (callee_vocabulary(ch.text) - locked) if x[1] not in precise and x != ("!", "matches"))
             if not new:
                 continue
             a, b = ch.out_lines
